@@ -5,6 +5,7 @@ package main
 
 import (
 	"go/types"
+	"strings"
 
 	"golang.org/x/tools/go/ssa"
 )
@@ -168,4 +169,76 @@ func closureInCell(v ssa.Value) *ssa.Function {
 		return nil
 	}
 	return fn
+}
+
+// reachableNarrow: like reachableFrom, but interface invocations on non-trzsz interfaces
+// (io.Writer, io.Reader, ...) are not resolved by CHA; instead, a function that constructs a
+// value of a trzsz named type reaches that type's methods (objects are used where they are built).
+func (p *Program) reachableNarrow(roots ...*ssa.Function) map[*ssa.Function]bool {
+	seen := map[*ssa.Function]bool{}
+	var visit func(f *ssa.Function)
+	methodsOf := func(t types.Type) []*ssa.Function {
+		var out []*ssa.Function
+		if pt, ok := t.(*types.Pointer); ok {
+			t = pt.Elem()
+		}
+		nt, ok := t.(*types.Named)
+		if !ok || nt.Obj().Pkg() == nil || nt.Obj().Pkg().Path() != trzszPath {
+			return nil
+		}
+		for _, rt := range []types.Type{nt, types.NewPointer(nt)} {
+			ms := p.Prog.MethodSets.MethodSet(rt)
+			for i := 0; i < ms.Len(); i++ {
+				if f := p.Prog.MethodValue(ms.At(i)); f != nil && f.Synthetic == "" {
+					out = append(out, f)
+				}
+			}
+		}
+		return out
+	}
+	visit = func(f *ssa.Function) {
+		if f == nil || seen[f] {
+			return
+		}
+		seen[f] = true
+		for _, a := range f.AnonFuncs {
+			visit(a)
+		}
+		eachInstr(f, func(in ssa.Instruction) {
+			if al, ok := in.(*ssa.Alloc); ok {
+				for _, m := range methodsOf(al.Type()) {
+					// only small helper types: skip the big state types whose methods are the API itself
+					if n := al.Type().Underlying().(*types.Pointer).Elem().(interface{ String() string }).String(); strings.HasSuffix(n, "trzszTransfer") || strings.HasSuffix(n, "TrzszFilter") || strings.HasSuffix(n, "TrzszRelay") {
+						continue
+					}
+					visit(m)
+				}
+			}
+			ci, ok := in.(ssa.CallInstruction)
+			if !ok {
+				return
+			}
+			cc := ci.Common()
+			if cc.IsInvoke() {
+				named, isNamed := cc.Value.Type().(*types.Named)
+				if !isNamed || named.Obj().Pkg() == nil || named.Obj().Pkg().Path() != trzszPath {
+					return
+				}
+				iface := named.Underlying().(*types.Interface)
+				for _, impl := range p.implementers(iface, cc.Method.Name()) {
+					visit(impl)
+				}
+				return
+			}
+			if callee := cc.StaticCallee(); callee != nil {
+				visit(callee)
+			} else if callee := closureInCell(cc.Value); callee != nil {
+				visit(callee)
+			}
+		})
+	}
+	for _, r := range roots {
+		visit(r)
+	}
+	return seen
 }
